@@ -727,6 +727,17 @@ def c04(payload):
                     if np.abs(E1 - fac * E0).max() > 1e-9 * np.abs(fac * E0).max() or np.abs(H1 - fac * H0).max() > 1e-9 * np.abs(fac * H0).max():
                         bad.append('near field for a power level of %.6g W is not sqrt (P / P_in) times the field of the solved currents (P_in = sum Re (V I*) / 2 = %.6g W): '
                                    'ratio %.6g instead of %.6g' % (Pq, P_in, np.abs(E1).max() / np.abs(E0).max(), fac))
+            # the near field of a frequency reached by a sweep step on the same object is that of a fresh object
+            if pts:
+                c = pts[0]
+                m.compute_near_field(list(c), [1.0, 1.0, 1.0], [1, 1, 1]); E0 = np.array(m.e_field[0]).copy(); H0 = np.array(m.h_field[0]).copy()
+                ms = gen.build(dict(spec, f=spec['f'] * rng.choice([0.9, 1.1, 0.5])))
+                ms.compute(); ms.compute_near_field(list(c), [1.0, 1.0, 1.0], [1, 1, 1])
+                ms.f = spec['f']; ms.compute(); ms.compute_near_field(list(c), [1.0, 1.0, 1.0], [1, 1, 1])
+                E1 = np.array(ms.e_field[0]); H1 = np.array(ms.h_field[0])
+                if np.abs(E1 - E0).max() > 1e-9 * np.abs(E0).max() or np.abs(H1 - H0).max() > 1e-9 * np.abs(H0).max():
+                    bad.append('near field after a frequency step on the same object differs from a fresh object: E by %.3g, H by %.3g relative'
+                               % (np.abs(E1 - E0).max() / np.abs(E0).max(), np.abs(H1 - H0).max() / np.abs(H0).max()))
             # far zone: merges into the reported far field, transverse, E/H = 376.7
             # far enough that the offset of the antenna from the origin (the far field's reference point) is below 1 %
             ext = float(np.abs(allp).max()) + maxseg
